@@ -1,9 +1,59 @@
+// C17 — each file is generated exactly once and plugin output stays in its directory.
+//
+// Level 1 (requests_test.go): images from generated workspaces -> bufimage.ImageByDir +
+// ImagesToCodeGeneratorRequests / ImageToCodeGeneratorRequest, checked against the documented
+// behaviour: the multiset of file_to_generate over all requests of one plugin, closure and
+// dependency order of proto_file, source_file_descriptors = untouched descriptors, proto_file
+// entries of generated files = descriptors minus source-retention options (reference stripper
+// written here), everything else untouched.
+//
+// Level 2 (generate_test.go): `buf generate` in-process with cmd/protoc-gen-verifrec, which records
+// the requests it receives and answers with scripted responses (benign / hostile names, insertion
+// points, duplicates, nameless continuation files, plugin errors). The recorded requests must
+// satisfy Level 1; the files that exist after the run are compared with a reference model of the
+// documented response handling (nothing outside a plugin's out, nothing at all on error, exact
+// content on success).
 package c17
 
 import (
+	"context"
 	"testing"
 
 	"github.com/bufbuild/bufverif/internal/evid"
 )
 
 func TestMain(m *testing.M) { evid.Main(m, "C17") }
+
+// TestReplay re-runs the oracle on a saved case: rendered sources, plugin configuration, flags and
+// scripted responses are all part of the case.
+func TestReplay(t *testing.T) {
+	var kind struct {
+		Kind string `json:"kind"`
+	}
+	ok, err := evid.ReplayCase(&kind)
+	if !ok {
+		t.Skip("no VERIF_REPLAY")
+	}
+	if err != nil {
+		t.Fatal(err)
+	}
+	r := evid.R()
+	defer r.Begin(t)()
+	ctx := context.Background()
+	switch kind.Kind {
+	case "l1":
+		var c ReqCase
+		if _, err := evid.ReplayCase(&c); err != nil {
+			t.Fatal(err)
+		}
+		runL1(ctx, t, r, &c)
+	case "l2":
+		var c GenCase
+		if _, err := evid.ReplayCase(&c); err != nil {
+			t.Fatal(err)
+		}
+		runL2(ctx, t, r, &c)
+	default:
+		t.Fatalf("harness: unknown case kind %q", kind.Kind)
+	}
+}
